@@ -372,18 +372,37 @@ def do_transcript(ns, call):
     buf = io.StringIO()
     old = sys.stdout
     sys.stdout = buf
+    TICK.reset(None)
     try:
         oev, _ = outcome(local, call["call"])
     finally:
         sys.stdout = old
+    nticks = TICK.n
+    tlog = list(TICK.log)
+    TICK.reset(None)
     ev += oev
-    if buf.getvalue():
-        ev.append(["out", buf.getvalue()[:2000]])
+    ev.append(["out", buf.getvalue()[:2000]])
     for p in call.get("post", []):
         try:
             ev.append(["post", p, show(eval(p, local))])  # noqa: S307
         except BaseException as e:  # noqa: BLE001
             ev.append(["post-exc", p, type(e).__name__, _msg(e)])
+    if call.get("hostile") and nticks:
+        # the sequence of callbacks into interpreted objects is an effect on objects passed in; then each callback
+        # position is forced to raise once: the exception must surface (or be handled) exactly as in CPython
+        ev.append(["callbacks", " ".join(tlog[:60])])
+        for k in range(1, min(nticks, int(call.get("max_fail", 10))) + 1):
+            local = dict(ns)
+            if run_setup(local, call.get("setup", [])):
+                break
+            sys.stdout = io.StringIO()
+            TICK.reset(k)
+            try:
+                fev, _ = outcome(local, call["call"])
+            finally:
+                sys.stdout = old
+            TICK.reset(None)
+            ev.append(["forced", k, fev[-1][:3] if fev else None])
     return ev
 
 
@@ -461,6 +480,9 @@ def measure(ns, call, fail_at=None, reps=0):
     if reps:
         for _ in range(reps):
             _quiet_call(local, call["call"])
+            # calls that grow their arguments (a0.extend(a0)) must not be repeated into a memory blow-up
+            if any(type(local.get(n)) in (list, dict, set, str, bytes) and len(local[n]) > 3000 for n in local if n not in ns):
+                break
         gc.collect()
         rc2 = _refs(local, names)
         rec["dR"] = [None if a is None or b is None else b - a for a, b in zip(rc0, rc2)]
